@@ -45,7 +45,11 @@ func Shape(a *AxisDesc, sa *SubAnalog, raw int32) (s *big.Rat, canNeg bool, endS
 	} else if sa.DefaultDZ != nil {
 		dzf = *sa.DefaultDZ
 	}
-	if math.IsNaN(dzf) || math.IsInf(dzf, 0) || dzf < 0 || dzf >= 1 {
+	if dzf == 1 {
+		// the whole travel is deadzone (the top of the documented 0.0-1.0 range): every position is the rest position
+		return new(big.Rat), canNeg, false, true
+	}
+	if math.IsNaN(dzf) || math.IsInf(dzf, 0) || dzf < 0 || dzf > 1 {
 		return nil, canNeg, false, false
 	}
 	dz := new(big.Rat).SetFloat64(dzf)
@@ -230,6 +234,14 @@ func (m *Dev) abs(ev Event, got []Msg, signals int) *Violation {
 	if a == nil {
 		if len(got) != 0 {
 			return viol("unmapped_axis_emits", fmt.Sprintf("%s is not mapped in %q but emitted %s", ev, m.D.Mappings[m.Map].Name, fmtMsgs(got)), "C06")
+		}
+		return nil
+	}
+	if a.NoInfo {
+		// a position cannot be placed in a range nobody knows: nothing can be derived from it, nothing is sent
+		m.probe("axis_without_range")
+		if len(got) != 0 {
+			return viol("axis_without_range_emits", fmt.Sprintf("%s: the range of this axis is unknown (0..0) but the event emitted %s", ev, fmtMsgs(got)), "C01", "C08", "C06", "C05")
 		}
 		return nil
 	}
